@@ -156,6 +156,90 @@ impl FaceIntegralWithData for FaceRecD {
     }
 }
 
+// Re-entrant downstream integrals. The traits put no restriction on what an implementation does while it is being
+// fed: a finite-volume code looks at the cell on the other side of a face (its volume, its faces) while it integrates
+// over this one. These integrals call back into the library on *another* cell from `init_with_data` and from the first
+// `collect`, and otherwise record like `FaceRec` / `CellRec`: what they are fed, and what the nested calls return, must
+// be what a plain integral is fed / what the same calls return at top level.
+
+/// Digest of the built-in integrals of one cell (volume, centroid, every face area and centroid): the nested call.
+pub fn probe_cell<M: ConvexCellMarker + 'static>(c: &ConvexCell<M>) -> u64 {
+    use meshless_voronoi::integrals::{AreaCentroidIntegral, VolumeCentroidIntegral};
+    let mut h = Fnv::new();
+    let v = c.compute_cell_integral::<(), VolumeCentroidIntegral>(());
+    h.u64(v.volume.to_bits());
+    for b in vec_bits(v.centroid) {
+        h.u64(b);
+    }
+    for f in c.compute_face_integrals::<(), AreaCentroidIntegral>(()) {
+        h.u64(f.integral().area.to_bits());
+        for b in vec_bits(f.integral().centroid) {
+            h.u64(b);
+        }
+        h.u64(f.right().map_or(u64::MAX, |r| r as u64));
+    }
+    h.finish()
+}
+
+/// The cell a re-entrant integral of cell `own` looks at: the constructed cell behind the plane, else the first
+/// constructed cell that is not `own` (None if there is no other constructed cell).
+pub fn reentry_target<M: ConvexCellMarker + 'static>(integ: &meshless_voronoi::VoronoiIntegrator<M>, own: usize, right: Option<usize>) -> Option<&ConvexCell<M>> {
+    right.filter(|&r| r != own).and_then(|r| integ.get_cell_at(r)).or_else(|| integ.cells_iter().find(|c| c.idx != own))
+}
+
+#[derive(Clone)]
+pub struct ReentFace<'a, M: ConvexCellMarker + 'static> {
+    pub rec: FaceRec,
+    pub probe_init: u64,
+    pub probe_collect: u64,
+    pub right: Option<usize>,
+    integ: &'a meshless_voronoi::VoronoiIntegrator<M>,
+}
+
+impl<'a, M: ConvexCellMarker + 'static> FaceIntegralWithData for ReentFace<'a, M> {
+    type Data = &'a meshless_voronoi::VoronoiIntegrator<M>;
+    fn init_with_data<N: ConvexCellMarker>(cell: &ConvexCell<N>, clipping_plane_idx: usize, data: Self::Data) -> Self {
+        let right = cell.clipping_planes[clipping_plane_idx].right_idx;
+        let probe_init = reentry_target(data, cell.idx, right).map_or(0, probe_cell);
+        ReentFace { rec: <FaceRec as FaceIntegral>::init(cell, clipping_plane_idx), probe_init, probe_collect: 0, right, integ: data }
+    }
+    fn collect(&mut self, v0: DVec3, v1: DVec3, v2: DVec3, gen: DVec3) {
+        if self.rec.tris == 0 {
+            self.probe_collect = reentry_target(self.integ, self.rec.cell_idx, self.right).map_or(0, probe_cell);
+        }
+        FaceIntegral::collect(&mut self.rec, v0, v1, v2, gen)
+    }
+    fn finalize(mut self) -> Self {
+        self.rec = FaceIntegral::finalize(self.rec);
+        self
+    }
+}
+
+pub struct ReentCell<'a, M: ConvexCellMarker + 'static> {
+    pub rec: CellRec,
+    pub probe_init: u64,
+    pub probe_collect: u64,
+    integ: &'a meshless_voronoi::VoronoiIntegrator<M>,
+}
+
+impl<'a, M: ConvexCellMarker + 'static> CellIntegralWithData for ReentCell<'a, M> {
+    type Data = &'a meshless_voronoi::VoronoiIntegrator<M>;
+    fn init_with_data<N: ConvexCellMarker>(cell: &ConvexCell<N>, data: Self::Data) -> Self {
+        let probe_init = reentry_target(data, cell.idx, None).map_or(0, probe_cell);
+        ReentCell { rec: <CellRec as CellIntegral>::init(cell), probe_init, probe_collect: 0, integ: data }
+    }
+    fn collect(&mut self, v0: DVec3, v1: DVec3, v2: DVec3, gen: DVec3) {
+        if self.rec.tets == 0 {
+            self.probe_collect = reentry_target(self.integ, self.rec.cell_idx, None).map_or(0, probe_cell);
+        }
+        CellIntegral::collect(&mut self.rec, v0, v1, v2, gen)
+    }
+    fn finalize(mut self) -> Self {
+        self.rec = CellIntegral::finalize(self.rec);
+        self
+    }
+}
+
 /// The datum handed to the library for generator index i.
 pub fn datum(i: usize) -> u64 {
     7 * i as u64 + 3
